@@ -4,6 +4,7 @@ import random
 
 import gen
 import impl
+import probes
 from core import Verdict
 
 RULE = ('one generated ISA + one instruction statement per case (1..5 operands drawn from 10 operand types, '
@@ -103,21 +104,42 @@ def gen_case(rng: random.Random, tier):
             'types': [c['type'] for c in ops_cfg], 'specific': use_specific}
 
 
+def gen_unit(rng):
+    """a raw field list for the packer itself (function-level probe of PackedBits): every size / alignment / endianness mix,
+    values on the edges of the signed-or-unsigned range and just outside it"""
+    fields = []
+    for _ in range(rng.randint(1, 7)):
+        n = rng.choice([1, 2, 3, 4, 5, 7, 8, 9, 12, 15, 16, 17, 24, 31, 32, 33, 64, rng.randint(1, 70)])
+        mn, mx = gen.fits_range(n)
+        v = rng.choice([mn, mx, 0, 1, -1, (1 << (n - 1)) - 1, 1 << (n - 1), rng.randint(mn, mx), rng.randint(mn, mx)])
+        v = max(mn, min(mx, v))
+        if rng.random() < 0.04:
+            v = rng.choice([mx + 1, mn - 1])
+        fields.append({'v': v, 'n': n, 'align': rng.random() < 0.35, 'little': rng.random() < 0.4})
+    return {'unit': 'packed_bits', 'fields': fields, 'types': ['unit-packed-bits'], 'specific': False}
+
+
 def generate(rng, tier):
     n = 500 if tier == 'quick' else 12000
-    return [gen_case(rng, tier) for _ in range(n)]
+    return [gen_case(rng, tier) for _ in range(n)] + [gen_unit(rng) for _ in range(n // 2)]
 
 
 def to_impl(case):
+    if case.get('unit'):
+        return probes.call('packed_bits', [[f['v'], f['n'], f['align'], f['little']] for f in case['fields']])
     return impl.compile_case(case['isa'], {'main.asm': case['asm']}, start=case['addr'])
 
 
 def to_model(case):
+    if case.get('unit'):
+        return {'op': 'fields', 'fields': case['fields']}
     return case['model']
 
 
 def _fields(case):
     fs = []
+    if case.get('unit'):
+        return case['fields']
     for o in case['model']['ops']:
         for k in ('code', 'arg'):
             if o.get(k):
@@ -130,6 +152,8 @@ def judge(case, ir, mr):
     if case['specific']:
         tags.append('specific')
     actual = impl.fbytes(ir, 'out.bin') if ir['status'] == 'ok' else None
+    if case.get('unit'):
+        actual = bytes(ir['ret']['bytes']) if ir['status'] == 'ok' and isinstance(ir.get('ret'), dict) else None
     a = ('bytes', list(actual)) if actual is not None else ('err', ir['status'])
     mi = ('bytes', mr['impl']['bytes']) if 'bytes' in mr['impl'] else ('err', mr['impl']['err'])
     ms = ('bytes', mr['spec']['bytes']) if 'bytes' in mr['spec'] else ('err', mr['spec']['err'])
